@@ -32,9 +32,23 @@ Local Open Scope Z_scope.
    std::type_info::name() strings are equal.  In the model they are simply further tags: the type test of typed access
    (`cast`: hty (slot s i) =? ty, C++: `v.type() == typeid(T)`) is equality of TYPES, i.e. of tags - never of names;
    the harness static_asserts all these sizes.
+   24 PBase (a class with a virtual destructor, 16 bytes), 25 PDerived : PBase (24 bytes): a polymorphic pair, instrumented.
+   A holder's type is the type the value was STORED or ADOPTED AS - the T of ValueStore(const T&), operator=(const T&),
+   assimilate(T* ), ValueMap::add<T> - i.e. the type of the vtable chosen at compile time (VTable<T>::typeinfo answers &typeid(T),
+   ValueStore::type() passes no object), never the dynamic type of the object behind the pointer.  The case alphabet's pseudo-tag
+   ADOPT_DERIVED = 26 (op `new`, and a map name's type) is "PBase* p = new PDerived(v)": the client owns the object through a PBase*,
+   so in the model it IS a PBase object (`static_ty 26 = 24`, applied where the case is decoded): adopting it gives a holder of type 24,
+   value_cast<PBase> yields it, value_cast<PDerived> is a type error, a copy of the holder copy-constructs a PBase from it (clone of
+   VTable<PBase>: the copy is a PBase), and clear / the destructor run `delete static_cast<PBase* >(p)`, which destroys the whole object once
+   (virtual destructor; the harness counts one destruction per object and checks that the derived part went first).
    Value semantics do not depend on the type: the tag only selects the representation (stored_inplace) and
    whether the harness can report an object id (instr). *)
-Definition NTY : Z := 24.
+Definition NTY : Z := 26.
+Definition P_BASE : Z := 24.
+Definition P_DERIVED : Z := 25.
+Definition ADOPT_DERIVED : Z := 26.
+(* the type an object created under (pseudo-)tag ty is owned, adopted and stored AS *)
+Definition static_ty (ty : Z) : Z := if ty =? ADOPT_DERIVED then P_BASE else ty.
 Definition PTR_SIZE : Z := 8.
 Definition size_of (ty : Z) : Z :=
   if ty =? 0 then 1 else if ty =? 1 then 4 else if ty =? 2 then 8 else if ty =? 3 then 16 else
@@ -43,13 +57,14 @@ Definition size_of (ty : Z) : Z :=
   if ty =? 11 then 9 else if ty =? 12 then 12 else if ty =? 13 then 15 else
   if ty =? 14 then 12 else if ty =? 15 then 9 else if ty =? 16 then 16 else if ty =? 17 then 8 else
   if ty =? 18 then 8 else if ty =? 19 then 12 else if ty =? 20 then 40 else
-  if ty =? 21 then 8 else if ty =? 22 then 12 else 40.
+  if ty =? 21 then 8 else if ty =? 22 then 12 else if ty =? 23 then 40 else
+  if ty =? 24 then 16 else 24.
 (* the type of the same spelling in the other translation unit (-1 = none; never the type itself) *)
 Definition twin (ty : Z) : Z :=
   if (18 <=? ty) && (ty <=? 20) then ty + 3 else if (21 <=? ty) && (ty <=? 23) then ty - 3 else -1.
 (* vtable<T>(): in_place (sizeof T) (sizeof void-pointer), generated from detail/value_store.h *)
 Definition stored_inplace (ty : Z) : bool := in_place (size_of ty) PTR_SIZE.
-Definition instr (ty : Z) : bool := ((0 <=? ty) && (ty <? 6)) || ((11 <=? ty) && (ty <? 14)).
+Definition instr (ty : Z) : bool := ((0 <=? ty) && (ty <? 6)) || ((11 <=? ty) && (ty <? 14)) || ((24 <=? ty) && (ty <? 26)).
 Definition norm (ty v : Z) : Z := if ty =? 6 then v mod 2 else v mod 1000.
 
 (* ---------- ledger ---------- *)
@@ -387,7 +402,7 @@ Fixpoint decode_ops (fuel : nat) (l : list Z) : list op :=
       | 4 :: i :: j :: r => OAssign i j :: decode_ops f r
       | 5 :: i :: j :: r => OSwap i j :: decode_ops f r
       | 6 :: i :: r => OClear i :: decode_ops f r
-      | 7 :: ty :: v :: r => ONew ty v :: decode_ops f r
+      | 7 :: ty :: v :: r => ONew (static_ty ty) v :: decode_ops f r     (* 26: new PDerived(v) owned through a PBase* = a PBase *)
       | 8 :: k :: r => OCDel k :: decode_ops f r
       | 9 :: i :: k :: r => OAdopt i k :: decode_ops f r
       | 10 :: i :: r => OSurrender i :: decode_ops f r
@@ -410,7 +425,8 @@ Definition run_case_a (c : list Z) : list Z :=
   match c with
   | h :: m :: r =>
       if (0 <=? h) && (h <=? MAX_H) && (0 <=? m) && (m <=? MAX_M) then
-        let tys := map (fun t => t mod NTY) (firstn (Z.to_nat m) r) in
+        (* a name of pseudo-type 26: NotifiedValue<PBase> whose creator returns a new PDerived (as PBase* ) *)
+        let tys := map (fun t => static_ty (t mod (NTY + 1))) (firstn (Z.to_nat m) r) in
         let ops := decode_ops MAX_OPS (skipn (Z.to_nat m) r) in
         run (Z.to_nat h) (Z.to_nat m) tys ops
       else [-999]
